@@ -21,6 +21,8 @@ var Magic = []byte{0x89, 'M', 'C', 'A', 'P', 0x30, '\r', '\n'}
 type Builder struct {
 	Buf        []byte
 	Pad        []byte
+	PadVary    bool // use a varying prefix (1..len(Pad) bytes) of Pad per record
+	padN       int
 	SortedMaps bool
 }
 
@@ -36,8 +38,13 @@ func (b *Builder) begin(op byte) rec {
 	return rec{b, len(b.Buf)}
 }
 func (r rec) end(pad bool) uint64 {
-	if pad {
-		r.b.Buf = append(r.b.Buf, r.b.Pad...)
+	if pad && len(r.b.Pad) > 0 {
+		p := r.b.Pad
+		if r.b.PadVary {
+			r.b.padN++
+			p = p[:1+(r.b.padN*7)%len(p)]
+		}
+		r.b.Buf = append(r.b.Buf, p...)
 	}
 	binary.LittleEndian.PutUint64(r.b.Buf[r.start-8:], uint64(len(r.b.Buf)-r.start))
 	return uint64(len(r.b.Buf) - r.start + 9)
@@ -278,6 +285,7 @@ type Layout struct {
 	SummaryOrder []string
 	CRC          bool
 	Pad          []byte
+	PadVary      bool
 	PadInChunks  bool
 	SortedMaps   bool
 	Unknown      []UnknownRec
@@ -339,7 +347,7 @@ type openChunk struct {
 
 // Encode lays the workload out. It returns the file and the number of chunks written.
 func Encode(w *wl.Workload, l Layout) ([]byte, int, error) {
-	b := &Builder{Pad: l.Pad, SortedMaps: l.SortedMaps}
+	b := &Builder{Pad: l.Pad, PadVary: l.PadVary, SortedMaps: l.SortedMaps}
 	b.Magic()
 	b.Header(w.Profile, w.Library)
 
@@ -389,6 +397,7 @@ func Encode(w *wl.Workload, l Layout) ([]byte, int, error) {
 	chunkPad := func(cb *Builder) {
 		if l.PadInChunks {
 			cb.Pad = l.Pad
+			cb.PadVary = l.PadVary
 		}
 	}
 	inner := func(c *openChunk) {
